@@ -1160,8 +1160,11 @@ living_parse (array_t * obarr, array_t * warr, int *cix_in, int *fail)
   tix = 0;
   *fail = 0;
 
+  /* the caller's array can hold anything, and check_for_destr() has turned
+   * destructed objects into 0 */
   for (obix = 0; obix < obarr->size; obix++)
-    if (obarr->item[obix].u.ob->flags & O_ENABLE_COMMANDS)
+    if (obarr->item[obix].type == T_OBJECT &&
+        (obarr->item[obix].u.ob->flags & O_ENABLE_COMMANDS))
       assign_svalue_no_free (&live->item[tix++], &obarr->item[obix]);
 
   if (tix)
